@@ -68,8 +68,11 @@ class Molecule(BigSMILESbase):
                         other_bd = self._elements[-1].bond_descriptors[-1]
                     if len(pre_stochastic.bond_descriptors) > 0:
                         found_compatible = False
+                        # The terminal bond descriptor states the descriptor this token carries,
+                        # just as the automatically added one below.
+                        expected_text = _create_compatible_bond_text(other_bd)
                         for bd in pre_stochastic.bond_descriptors:
-                            if bd.is_compatible(other_bd):
+                            if bd.preceding_characters + bd.generate_string(False) == expected_text:
                                 found_compatible = True
                         if not found_compatible:
                             raise RuntimeError(
